@@ -287,6 +287,7 @@ type frame struct {
 	conds   []cond
 	comps   []*comp
 	prelude string // helper declarations the frame needs (shared by the whole file)
+	extra   map[string]string // further files of the program (Prog.Extra)
 }
 
 type gctx struct {
